@@ -33,10 +33,19 @@ def run(diff, props):
         env = dict(os.environ)
         env["SA_REPO"] = str(tmp)
         env["SA_OUT"] = str(tmp / "evidence")
-        procs = {p: subprocess.Popen([PY, "-B", "-m", "sa.run", p, "quick"], cwd=str(VERIF), env=env, stdout=subprocess.PIPE, stderr=subprocess.STDOUT, text=True) for p in props}
-        for p, pr in procs.items():
-            o, _ = pr.communicate(timeout=300)
-            out[p] = (pr.returncode, o)
+        start = lambda p: subprocess.Popen([PY, "-B", "-m", "sa.run", p, "quick"], cwd=str(VERIF), env=env, stdout=subprocess.PIPE, stderr=subprocess.STDOUT, text=True)
+        props = list(props)
+        # the first check computes (and caches) the normal forms of the patched tree; the others then read them
+        pr = start(props[0])
+        o, _ = pr.communicate(timeout=600)
+        out[props[0]] = (pr.returncode, o)
+        par = int(os.environ.get("SA_TRY_PAR", "20"))
+        rest = props[1:]
+        for i in range(0, len(rest), par):
+            procs = {p: start(p) for p in rest[i:i + par]}
+            for p, pr in procs.items():
+                o, _ = pr.communicate(timeout=600)
+                out[p] = (pr.returncode, o)
     finally:
         shutil.rmtree(tmp, ignore_errors=True)
     return out
